@@ -243,12 +243,12 @@ theorem diagCode_sound (bs0 : Nat) (hbs : 0 < bs0) (alg : Alg) :
         intro M hM
         have := any_false_members (f := fun M => decide (M.rows ≠ M.cols)) hns M hM
         simpa using this
-      cases hs : seqE (Ms.map (fun M => diagCode bs0 alg M 0)) with
+      cases hs : dtSeqE (Ms.map (fun M => diagCode bs0 alg M 0)) with
       | error e => simp [hs, bind, Except.bind] at h
       | ok ds =>
         simp only [hs, bind, Except.bind, pure, Except.pure, Except.ok.injEq] at h
         have hds : ds = Ms.map dlist :=
-          seqE_map_ok _ dlist Ms ds hs (fun M hM d' hd' => by
+          dtSeqE_map_ok _ dlist Ms ds hs (fun M hM d' hd' => by
             rw [ih M hM (hsqM M hM) d' hd', diagK_zero]; rfl)
         rw [← h, hds, kron_diag_list Ms hsqM, diagK_zero]
         simp only [rows]
@@ -268,12 +268,12 @@ theorem diagCode_sound (bs0 : Nat) (hbs : 0 < bs0) (alg : Alg) :
     by_cases hk : k = 0
     · subst hk
       simp only [ne_eq, not_true_eq_false, if_false] at h
-      cases hs : seqE (Ms.map (fun M => diagCode bs0 alg M 0)) with
+      cases hs : dtSeqE (Ms.map (fun M => diagCode bs0 alg M 0)) with
       | error e => simp [hs, bind, Except.bind] at h
       | ok ds =>
         simp only [hs, bind, Except.bind, pure, Except.pure, Except.ok.injEq] at h
         have hds : ds = Ms.map dlist :=
-          seqE_map_ok _ dlist Ms ds hs (fun M hM d' hd' => by
+          dtSeqE_map_ok _ dlist Ms ds hs (fun M hM d' hd' => by
             rw [ih M hM (hsqM M hM) d' hd', diagK_zero]; rfl)
         rw [← h, hds, kronsum_diag_list Ms hsqM, diagK_zero]
         simp only [rows]
@@ -300,12 +300,12 @@ theorem diagCode_sound (bs0 : Nat) (hbs : 0 < bs0) (alg : Alg) :
         intro M hM
         have := any_false_members (f := fun M => decide (M.rows ≠ M.cols)) hns M hM
         simpa using this
-      cases hs : seqE (Ms.map (fun M => diagCode bs0 alg M 0)) with
+      cases hs : dtSeqE (Ms.map (fun M => diagCode bs0 alg M 0)) with
       | error e => simp [hs, bind, Except.bind] at h
       | ok ds =>
         simp only [hs, bind, Except.bind] at h
         have hds : ds = Ms.map dlist :=
-          seqE_map_ok _ dlist Ms ds hs (fun M hM d' hd' => by
+          dtSeqE_map_ok _ dlist Ms ds hs (fun M hM d' hd' => by
             rw [ih M hM (hsqM M hM) d' hd', diagK_zero]; rfl)
         split at h
         · simp at h
@@ -381,11 +381,11 @@ theorem traceCode_sound (bs0 : Nat) (hbs : 0 < bs0) (alg : Alg) :
     by
     intro t h
     rw [traceCode] at h
-    cases hs : seqE (Ms.map (fun M => traceCode bs0 alg M)) with
+    cases hs : dtSeqE (Ms.map (fun M => traceCode bs0 alg M)) with
     | error e => simp [hs, bind, Except.bind] at h
     | ok ts =>
       simp only [hs, bind, Except.bind] at h
-      have hmap := seqE_ok _ _ hs
+      have hmap := dtSeqE_ok _ _ hs
       have hsqM : ∀ M ∈ Ms, M.rows = M.cols := by
         intro M hM
         have hmem : traceCode bs0 alg M ∈ Ms.map (fun M => traceCode bs0 alg M) :=
@@ -394,7 +394,7 @@ theorem traceCode_sound (bs0 : Nat) (hbs : 0 < bs0) (alg : Alg) :
         obtain ⟨t', _, ht'⟩ := hmem
         exact (ih M hM t' ht'.symm).1
       have hts : ts = Ms.map (fun M => traceSpec M.den.f M.rows) :=
-        seqE_map_ok _ _ Ms ts hs (fun M hM t' ht' => (ih M hM t' ht').2)
+        dtSeqE_map_ok _ _ Ms ts hs (fun M hM t' ht' => (ih M hM t' ht').2)
       have hrc : (kron Ms).rows = (kron Ms).cols := by
         simp only [rows, cols, map_cols_eq_rows Ms hsqM]
       refine ⟨hrc, ?_⟩
